@@ -3,7 +3,7 @@
 use crate::common::evidence::{Report, Tier};
 use crate::common::explore::*;
 use crate::common::findings::Failure;
-use crate::common::panics::catch;
+use crate::common::panics::{catch, PanicInfo};
 use crate::common::refmodel::*;
 use crate::common::worlds::*;
 use serde_json::{json, Value};
@@ -115,7 +115,6 @@ impl SentSpace {
     }
 
     fn check_one(&self, text: &str, limit: usize, with_checker: bool, o: &mut Outcome) {
-        o.evaluations += 1;
         let ctx = format!("text {:?} limit {} checker {}", text, limit, if with_checker { "dictionary" } else { "none" });
         let r = catch(|| {
             let lex = self.world.dict.lexicon();
@@ -129,6 +128,49 @@ impl SentSpace {
             }
             out
         });
+        self.judge(text, limit, with_checker, ctx, r, o);
+    }
+
+    /// the same splitter object and the same text buffer (same address, as a line buffer of a reader would be) used for
+    /// other texts first: the sentences of `text` have to satisfy the same statement
+    fn check_reused(&self, text: &str, limit: usize, with_checker: bool, o: &mut Outcome) {
+        const EARLIER: [&str; 2] = ["あいうえお。", "a!あ。な。な(。"];
+        if text.is_empty() {
+            return;
+        }
+        let lex = self.world.dict.lexicon();
+        let sp = if with_checker { SentenceSplitter::with_limit(limit).with_checker(lex) } else { SentenceSplitter::with_limit(limit) };
+        let mut buf = String::with_capacity(text.len() + 64);
+        for earlier in EARLIER {
+            let ctx = format!(
+                "text {:?} limit {} checker {}, splitter and text buffer used for {:?} just before",
+                text,
+                limit,
+                if with_checker { "dictionary" } else { "none" },
+                earlier
+            );
+            let r = catch(|| {
+                buf.clear();
+                buf.push_str(earlier);
+                let n = sp.split(&buf).take(earlier.len() + 2).count();
+                std::hint::black_box(n);
+                buf.clear();
+                buf.push_str(text);
+                let mut out: Vec<(std::ops::Range<usize>, String)> = Vec::new();
+                for (r, s) in sp.split(&buf) {
+                    out.push((r, s.to_string()));
+                    if out.len() > text.len() + 2 {
+                        break;
+                    }
+                }
+                out
+            });
+            self.judge(text, limit, with_checker, ctx, r, o);
+        }
+    }
+
+    fn judge(&self, text: &str, limit: usize, with_checker: bool, ctx: String, r: Result<Vec<(std::ops::Range<usize>, String)>, PanicInfo>, o: &mut Outcome) {
+        o.evaluations += 1;
         let sents = match r {
             Err(p) => {
                 o.fail(Failure::panic(&ctx, &p));
@@ -229,6 +271,7 @@ impl Space for SentSpace {
         for &l in &self.limits {
             for ck in [false, true] {
                 self.check_one(&text, l, ck, &mut o);
+                self.check_reused(&text, l, ck, &mut o);
             }
         }
         o
